@@ -161,11 +161,12 @@ func (in *Inst) VamanaBattery(o *Obs, m *Model, c VamanaQueryCfg) {
 		o.Fail("dump-error", "%v", err)
 		return
 	}
-	env, err := EnvFor(c.Params.DistanceMetric, c.Params.Quantizer, int(c.Params.VectorSize), d["index/vectorVamana/"+c.Prop])
+	env, err := EnvFor(c.Params.DistanceMetric, c.Params.Quantizer, int(c.Params.VectorSize), d["index/vectorVamana/"+c.Prop], NodeIds(d))
 	if err != nil {
 		o.Fail("harness-env", "%v", err)
 		return
 	}
+	PQCheck(o, "vamana", env, m, c.Prop)
 	nvec := 0
 	for _, doc := range m.Docs {
 		if _, ok := VecOf(doc, c.Prop); ok {
